@@ -34,6 +34,8 @@ pub enum G {
     OneOf(Vec<char>),
     NoneOf(Vec<char>),
     Sel(Vec<char>),
+    AnyR,
+    SelR(Vec<char>),
     End,
     Empty,
     Cust(usize, bool),
@@ -171,6 +173,8 @@ impl G {
             "oneof" => G::OneOf(toks(&a[1])?),
             "noneof" => G::NoneOf(toks(&a[1])?),
             "sel" => G::Sel(toks(&a[1])?),
+            "anyr" => G::AnyR,
+            "selr" => G::SelR(toks(&a[1])?),
             "end" => G::End,
             "empty" => G::Empty,
             "cust" => G::Cust(us(&a[1]), a[2].as_bool().unwrap_or(false)),
